@@ -17,6 +17,8 @@ for d in sorted(glob.glob(HERE + '/seeded/*/')):
     if args and not any(name.startswith(a) for a in args): continue
     meta = json.load(open(d + 'meta.json'))
     prop = meta['property']
+    if meta.get('retired'):
+        print(name, prop, 'RETIRED (no longer a breaking change on the current tree)', flush=True); continue
     props = claimed if allprops else [prop]
     r = sh('git -C %s apply %spatch.diff' % (REPO, d))
     if r.returncode != 0:
